@@ -29,6 +29,12 @@ IDENTITIES = {
     # single values handed over as plain strings; the mail value merely contains the value an SP may ask for
     # values that are not text (what a directory wrapper may hand over): patterns apply to their text form
     'typed-values': {'givenName': ['Alice'], 'mail': [4711, True, 'alice@example.org'], 'title': [7], 'secret': ['S3CR3T-VALUE']},
+    # the same strings under two attributes that have different patterns
+    'shared-values': {'givenName': ['Alice', 'Dr', 'alice@example.org'], 'title': ['Dr', 'Alice', 'alice@example.org'],
+                      'mail': ['alice@example.org', 'Alice', 'Dr'], 'secret': ['S3CR3T-VALUE']},
+    'shared-values-reversed': {'mail': ['Dr', 'Alice', 'alice@example.org'], 'title': ['alice@example.org', 'Alice', 'Dr'],
+                               'givenName': ['alice@example.org', 'Dr', 'Alice'], 'secret': ['Alice']},
+    'pvp': {'PVP-GID': ['gid-1'], 'PVP-BPK': ['bpk-1'], 'PVP-CHARGE-CODE': ['cc-1'], 'mail': ['alice@example.org'], 'givenName': ['Alice'], 'secret': ['S3CR3T-VALUE']},
     'string-valued': {'givenName': 'Alice', 'mail': 'xalice@example.org', 'title': 'Dr', 'secret': 'S3CR3T-VALUE'},
 }
 
@@ -49,9 +55,11 @@ RESTR = {
     'regex': {'mail': [r'.*@example\.org$'], 'givenName': None, 'title': None},
     'regex-nothing': {'mail': ['^nomatch$'], 'givenName': None},
     # two overlapping patterns: one value matches both, the other none
+    # a pattern of its own for each of three attributes
+    'regex-each': {'givenName': ['^Alice$'], 'title': ['^Dr$'], 'mail': [r'.*@example\.org$']},
     'regex-overlap': {'mail': [r'.*@example\.org$', r'^alice@example.*'], 'givenName': None, 'title': None},
 }
-CATS = ('absent', 'refeds', 'swamid', 'edugain')
+CATS = ('absent', 'refeds', 'swamid', 'edugain', 'at_egov_pvp2')      # (the last one has no always-released entry)
 FAIL = ('absent', True, False)
 ENTRY = ('default', 'per-sp', 'per-sp-partial', 'none')      # 'none': no policy section at all (the default policy is in force)
 RS = 'http://refeds.org/category/research-and-scholarship'
@@ -65,6 +73,11 @@ CAT_TABLE = {
     'swamid': {'': ['eduPersonTargetedID'], RS: ['eduPersonTargetedID', 'eduPersonPrincipalName', 'mail', 'displayName', 'givenName', 'sn', 'eduPersonScopedAffiliation'],
                (SWAMID_RE, SWAMID_HEI): ['givenName', 'displayName', 'sn', 'cn', 'c', 'o', 'co', 'norEduOrgAcronym', 'schacHomeOrganization', 'schacHomeOrganizationType', 'eduPersonPrincipalName', 'eduPersonScopedAffiliation', 'mail', 'eduPersonAssurance']},
 }
+PVP2 = 'http://www.ref.gv.at/ns/names/agiz/pvp/egovtoken'
+PVP2CHARGE = 'http://www.ref.gv.at/ns/names/agiz/pvp/egovtoken-charge'
+CAT_TABLE['at_egov_pvp2'] = {PVP2: ['PVP-VERSION', 'PVP-PRINCIPAL-NAME', 'PVP-GIVENNAME', 'PVP-BIRTHDATE', 'PVP-USERID', 'PVP-GID', 'PVP-BPK', 'PVP-MAIL',
+                                    'PVP-TEL', 'PVP-PARTICIPANT-ID', 'PVP-PARTICIPANT-OKZ', 'PVP-OU-OKZ', 'PVP-OU', 'PVP-OU-GV-OU-ID', 'PVP-FUNCTION', 'PVP-ROLES'],
+                             PVP2CHARGE: ['PVP-INVOICE-RECPT-ID', 'PVP-COST-CENTER-ID', 'PVP-CHARGE-CODE']}
 ONLY_REQUIRED = {'edugain': {COCO}}
 SP_DECL = {
     'none': (),
@@ -80,6 +93,8 @@ SP_DECL = {
     # the declaration sits in one of two SPSSODescriptor elements (the other one, e.g. for SAML 1.1, declares nothing)
     'two-descr-second-bare': (('givenName', True, ()), ('mail', True, ()), ('title', False, ())),
     'two-descr-first-bare': (('givenName', True, ()), ('mail', True, ()), ('title', False, ())),
+    # a second AttributeConsumingService that requests nothing
+    'second-acs-empty': (('givenName', True, ()), ('mail', False, ())),
 }
 BARE_DESCR = ('<md:SPSSODescriptor protocolSupportEnumeration="urn:oasis:names:tc:SAML:1.1:protocol">'
               '<md:AssertionConsumerService Binding="urn:oasis:names:tc:SAML:1.0:profiles:browser-post" '
@@ -88,6 +103,7 @@ SP_CATS = {'none': (), 'rs': (RS,), 'coco': (COCO,), 'swamid-half': (SWAMID_RE,)
            # the same category value listed twice (legal metadata): still only half of the swamid combination
            'swamid-half-twice': (SWAMID_RE, SWAMID_RE), 'rs+swamid-half-twice': (RS, SWAMID_RE, SWAMID_RE),
            # category URIs as values of *other* entity attributes (category support, assurance): no membership
+           'pvp2': (PVP2,), 'pvp2+charge': (PVP2, PVP2CHARGE),
            'rs-as-support': ('@http://macedir.org/entity-category-support', RS, COCO),
            'coco+rs-as-assurance': (COCO, '@urn:oasis:names:tc:SAML:attribute:assurance-certification', RS)}
 
@@ -122,6 +138,9 @@ def sp_metadata(decl, cats):
         md = md.replace('</md:EntityDescriptor>', BARE_DESCR + '</md:EntityDescriptor>')
     elif decl == 'two-descr-first-bare':
         md = md.replace('<md:SPSSODescriptor', BARE_DESCR + '<md:SPSSODescriptor', 1)
+    elif decl == 'second-acs-empty':
+        md = md.replace('</md:AttributeConsumingService>', '</md:AttributeConsumingService><md:AttributeConsumingService index="1">'
+                        '<md:ServiceName xml:lang="en">second</md:ServiceName></md:AttributeConsumingService>', 1)
     return md
 
 
@@ -235,8 +254,8 @@ def permitted(identity, restr, cat, decl, cats):
     return allowed
 
 
-LATE = {'entry': ('none',), 'decl': ('value-met+empty', 'two-descr-second-bare', 'two-descr-first-bare'),
-        'ident': ('typed-values', 'string-valued'), 'cats': ('rs-as-support', 'coco+rs-as-assurance')}
+LATE = {'cat': ('at_egov_pvp2',), 'restr': ('regex-each',), 'entry': ('none',), 'decl': ('value-met+empty', 'two-descr-second-bare', 'two-descr-first-bare', 'second-acs-empty'),
+        'ident': ('typed-values', 'string-valued', 'shared-values', 'shared-values-reversed', 'pvp'), 'cats': ('rs-as-support', 'coco+rs-as-assurance', 'pvp2', 'pvp2+charge')}
 
 
 def _norm(c):
@@ -394,8 +413,63 @@ def evaluate_seq(c):
     return res
 
 
+def evaluate_reload(c):
+    """One long-lived Server; the SP's metadata source is loaded again under the same key after the SP changed what it
+    declares: the next response follows the declaration the store now holds."""
+    import os
+    from saml2_tophat import saml
+    first, second, role = c
+    env.Clock.set(env.BASE)
+    d = os.path.join(TMP[0], 'reload-%d-%s-%s-%s' % (os.getpid(), first, second, role))
+    os.makedirs(d, exist_ok=True)
+    srv = server_in(d, first, role)
+    path = world.write_md(d, sp_metadata(first, 'none'))
+    assert path in srv.metadata.metadata
+    nid = saml.NameID(text='subject-1', format=saml.NAMEID_FORMAT_TRANSIENT)
+
+    def ask():
+        ident = {k: list(v) for k, v in FULL.items()}
+        if role == 'idp':
+            r = srv.create_authn_response(ident, 'req1', ACS_POST, SP_X, name_id=nid, authn={'class_ref': forge.PASSWORD})
+        else:
+            r = srv.create_attribute_response(ident, 'req1', ACS_POST, SP_X, name_id=nid)
+        return released(str(r))[1]
+    try:
+        ask()
+        with open(path, 'w', encoding='utf-8') as f:
+            f.write(sp_metadata(second, 'none'))
+        srv.metadata.load('local', path)
+        rel = ask()
+    except Exception as e:
+        return c, [], 'exception:%s' % type(e).__name__
+    allowed = permitted(FULL, 'absent', 'absent', second, 'none')
+    bad = sorted(n for n, vals in rel.items() if n not in allowed or any(v not in allowed[n] for v in vals))
+    return c, bad, None
+
+
+def server_in(d, decl, role):
+    pol = {'default': {'fail_on_missing_requested': False}}
+    if role == 'idp':
+        return world.make_idp(d, [sp_metadata(decl, 'none')], policy=pol)
+    from saml2_tophat.config import Config
+    from saml2_tophat.server import Server
+    conf = world.idp_config(d, [sp_metadata(decl, 'none')], policy=pol)
+    aa = conf['service'].pop('idp')
+    aa['endpoints'] = {'attribute_service': [('https://idpa.example/aa', world.BINDING_SOAP)]}
+    conf['service']['aa'] = aa
+    c = Config()
+    c.load(conf, metadata_construction=False)
+    c.context = 'aa'
+    return Server(config=c)
+
+
 def run(ctx):
     TMP[0] = ctx.tmp
+    rl = [(a, b, role) for a, b in (('required+optional', 'required-subset'), ('required+optional', 'optional-only'), ('none', 'required-subset'),
+                                     ('value-met', 'value-unmet'), ('required-subset', 'required+optional')) for role in ('idp', 'aa')]
+    for c, bad, problem in ctx.pmap(evaluate_reload, rl, chunksize=1):
+        for name in bad:
+            ctx.violation({'kind': 'released-beyond-policy', 'attribute': name, 'reload': list(c[:2]), 'role': c[2], 'entry': 'default'}, {})
     sq = seq_cells()
     sres = ctx.pmap(evaluate_seq, sq, chunksize=2)
     for c, outs in zip(sq, sres):
